@@ -25,11 +25,34 @@ type ufsFields struct {
 	HashType   *uint64
 	Fanout     *uint64
 	Mode       *uint64
+	// Presentation: 0 canonical; 1 the Type field comes last; 2 an unknown field (number 9) comes first; 3 the Type tag is
+	// written as a two-byte (non-minimal) varint. All are valid protobuf for the same message.
+	Presentation int
 }
 
 func (u *ufsFields) encode() []byte {
 	var b []byte
-	b = wVarint(wTag(b, 1, 0), u.Type)
+	typeField := wVarint(wTag(nil, 1, 0), u.Type)
+	switch u.Presentation {
+	case 1:
+		// (appended after the other fields)
+	case 2:
+		b = wVarint(wTag(b, 9, 0), 1)
+		b = append(b, typeField...)
+	case 3:
+		b = append(b, 0x88, 0x00)
+		b = wVarint(b, u.Type)
+	default:
+		b = append(b, typeField...)
+	}
+	b = u.encodeRest(b)
+	if u.Presentation == 1 {
+		b = append(b, typeField...)
+	}
+	return b
+}
+
+func (u *ufsFields) encodeRest(b []byte) []byte {
 	if u.HasData {
 		b = wBytes(b, 2, u.Data)
 	}
